@@ -234,7 +234,29 @@ def histories(ctx, N, nmax):
         mode = MODES[i % 5]
         eps = r.choice([0.0, 2.0 ** -20, 2.0 ** -10, 0.125])
         has_reset = r.random() < 0.5
+        if i % 4 == 3 and len(cls) >= 2:
+            # a crisp "flag" channel: vigilance 0 and 0/1 data, so that match values are exactly 0 (and still
+            # pass `0 >= 0`); vetoes then have to track a threshold from 0 upwards
+            k0 = r.randrange(len(cls))
+            if cls[k0] in ("FuzzyART", "ART1"):
+                sp[k0]["rho"] = 0.0
+                if cls[k0] == "ART1":
+                    sp[k0]["L"] = max(sp[k0]["L"], 2.0)
+                else:
+                    sp[k0]["alpha"] = max(sp[k0]["alpha"], 2.0 ** -10)
+                a = sum(dims[:k0])
+                if cls[k0] == "FuzzyART":
+                    raw = np.array([[float(r.randint(0, 1)) for _ in range(ds[k0])] for _ in range(n)])
+                    X[:, a:a + dims[k0]] = gen.cc(raw)
+                has_reset = True
+                eps = r.choice([2.0 ** -10, 0.125, 0.125])
+                if r.random() < 0.8:
+                    mode = "MT+"      # the only mode in which a threshold tracked up from 0 decides later candidates
+                cov.hit("flag-channel:rho=0")
+                flag_vt = [[r.random() < 0.5 for _ in range(3 * n + 5)] for _ in range(3 * n + 4)]
         vt = gen.veto_table(r, 3 * n + 4, 3 * n + 5) if has_reset else None
+        if has_reset and i % 4 == 3 and len(cls) >= 2 and cls[k0] in ("FuzzyART", "ART1"):
+            vt = flag_vt
         spec = fusion_spec(sp, dims, gam)
         rep = {"spec": spec, "mode": mode, "eps": eps, "veto": vt, "X": X}
         try:
